@@ -45,6 +45,7 @@ type config struct {
 	Backend        dnsfix.Backend `json:"backend"`
 	AlwaysCompress bool           `json:"always_compress"`
 	Cache          bool           `json:"cache"`
+	CacheWRS       bool           `json:"cache_weighted"` // cache weighted answers too (-cache-wrs-timeout > 0)
 }
 
 func b2i(b bool) int {
@@ -113,6 +114,10 @@ func configs(thorough bool) []config {
 			}
 		}
 		out = append(out, mkConfig(true, false, multi, dnsfix.CDB, false, true))
+		cw := mkConfig(false, false, multi, dnsfix.CDB, false, true)
+		cw.CacheWRS = true
+		cw.Name += "wrs"
+		out = append(out, cw)
 		out = append(out, mkConfig(true, false, []listenerSpec{{"::1", 2}}, dnsfix.CDB, false, false))
 		out = append(out, mkConfig(false, true, []listenerSpec{{"::1", 4}}, dnsfix.RDBv2, true, true))
 	}
@@ -132,7 +137,7 @@ func configs(thorough bool) []config {
 func transports(thorough bool) []transport {
 	sizes := []uint16{0, 600, 1232, 4096}
 	if thorough {
-		sizes = []uint16{0, 512, 513, 600, 1231, 1232, 1233, 4096, 8192, 65535}
+		sizes = []uint16{0, 256, 512, 513, 600, 1231, 1232, 1233, 4096, 8192, 65535}
 	}
 	var out []transport
 	for _, s := range sizes {
@@ -160,6 +165,18 @@ func main() {
 	dnsfix.Quiet(dir)
 
 	cfgs := configs(r.Thorough())
+	if only := os.Getenv("VERIF_C20_ONLY"); only != "" {
+		// debugging / replay aid: run only the configurations whose name contains the string
+		var sel []config
+		for _, c := range cfgs {
+			if strings.Contains(c.Name, only) {
+				sel = append(sel, c)
+			}
+		}
+		cfgs = sel
+		r.Exhaustive = false
+		r.Note("restricted to configurations matching %q", only)
+	}
 	if os.Getenv("VERIF_C20_DUMP") != "" {
 		dumpBare(dir)
 		clean()
